@@ -52,12 +52,22 @@ pub enum GraphInline {
 impl GraphBlock {
     fn is_sparce_list(&self) -> bool {
         match self {
-            GraphBlock::BulletList(items) => items
-                .iter()
-                .any(|item| item.iter().filter(|block| block.is_paragraph()).count() > 1),
-            GraphBlock::OrderedList(items) => items
-                .iter()
-                .any(|item| item.iter().filter(|block| block.is_paragraph()).count() > 1),
+            GraphBlock::BulletList(items) => items.iter().any(|item| {
+                item.iter().filter(|block| block.is_paragraph()).count() > 1
+                    || item.iter().skip(1).any(|block| block.needs_blank_line_before())
+            }),
+            GraphBlock::OrderedList(items) => items.iter().any(|item| {
+                item.iter().filter(|block| block.is_paragraph()).count() > 1
+                    || item.iter().skip(1).any(|block| block.needs_blank_line_before())
+            }),
+            _ => false,
+        }
+    }
+
+    // a rule directly under a text line turns it into a setext heading
+    fn needs_blank_line_before(&self) -> bool {
+        match self {
+            GraphBlock::HorizontalRule => true,
             _ => false,
         }
     }
